@@ -109,6 +109,20 @@ inline std::string long_pad(uint64_t i) {   // deterministic flavour for generat
   return std::string(static_cast<size_t>(20 + i % 21), static_cast<char>('A' + i % 26));
 }
 
+// little-endian byte writer for images that are hand-built from the documented layouts (legacy / foreign formats that the
+// readers still accept but the current writers never produce)
+struct Wr {
+  Bytes b;
+  Wr& u8(uint8_t v) { b.push_back(v); return *this; }
+  Wr& u16(uint16_t v) { for (int i = 0; i < 2; ++i) b.push_back(static_cast<uint8_t>(v >> (8 * i))); return *this; }
+  Wr& u32(uint32_t v) { for (int i = 0; i < 4; ++i) b.push_back(static_cast<uint8_t>(v >> (8 * i))); return *this; }
+  Wr& u64(uint64_t v) { for (int i = 0; i < 8; ++i) b.push_back(static_cast<uint8_t>(v >> (8 * i))); return *this; }
+  Wr& f32(float v) { uint32_t x; memcpy(&x, &v, 4); return u32(x); }
+  Wr& f64(double v) { uint64_t x; memcpy(&x, &v, 8); return u64(x); }
+  Wr& str(const std::string& s) { u32(static_cast<uint32_t>(s.size())); b.insert(b.end(), s.begin(), s.end()); return *this; }
+  Wr& zeros(size_t n) { b.insert(b.end(), n, 0); return *this; }
+};
+
 // to be provided by the unit
 std::vector<Target> targets();
 unsigned variants(bool thorough);
